@@ -533,7 +533,13 @@ class TD3(RLAlgorithm):
                     if swap_channels:
                         obs = obs_channels_to_first(obs)
                     action = self.get_action(obs, training=False)
+                    # A single (non-vectorised) environment takes one action and
+                    # returns plain flags
+                    if not hasattr(env, "num_envs"):
+                        action = action[0]
                     obs, reward, done, trunc, _ = env.step(action)
+                    if not hasattr(env, "num_envs"):
+                        done, trunc = [done], [trunc]
                     step += 1
                     scores += np.array(reward)
                     for idx, (d, t) in enumerate(zip(done, trunc)):
